@@ -58,6 +58,23 @@ def run(ctx, rep):
             rep.add("Z2", "propagated:%s:%s" % (nm, strip_generics(callee_def(t))), ok, body.where(bb),
                     "; ".join("%s(%s)" % (k, dd) for k, dd, _ in cl))
         rep.floor("Z2", "result-calls:" + nm, n, 2)
+    # ---- Z7: nothing else in decompress_zstd can refuse the call on account of the capacity or the input ---------------
+    # The two steps that may fail by the property's own words are the bounded zstd decode (capacity too small / not a
+    # frame) and the reconstruction.  Any further fallible call that is handed a value computed from `capacity` or from
+    # the caller's bytes (a decoder parameter derived from the capacity, a pre-check of the frame header ...) is a new way
+    # to answer Err for a (file, capacity) pair the property says is Ok.
+    n7 = 0
+    for bb, t in err.result_calls(d):
+        nm7 = strip_generics(callee_def(t))
+        if any(re.search(pat, nm7) for pat, _, _ in BOUNDED) or nm7 == PC + "recreated_zlib_chunks":
+            n7 += 1
+            continue
+        dep = set()
+        for a in t["args"]:
+            dep |= _param_deps(d, a)
+        rep.add("Z7", "no-other-step-can-refuse:%s" % nm7, not dep, d.where(bb),
+                "fallible call besides the bounded decode and the reconstruction; its arguments depend on parameter(s) %s (1 = the bytes, 2 = capacity)" % sorted(dep))
+    rep.floor("Z7", "fallible-steps", n7, 2)
     # ---- Z3 ------------------------------------------------------------------------------------
     rc = [(bb, t) for bb, t in d.calls() if strip_generics(callee_def(t)) == PC + "recreated_zlib_chunks"]
     rep.floor("Z3", "recreated_zlib_chunks-call", len(rc), 1)
@@ -144,6 +161,31 @@ def run(ctx, rep):
     # conversions that `?` calls — must be a row of the reviewed table (same table and obligations as C01/A6, C05/X1)
     from . import site
     site.check_sites(F, rep, "Z4", [PC + "decompress_zstd", PC + "compress_zstd"], 20)
+    # Z8: partial operations (division, remainder, ilog) under the two entries need a non-zero constant or a proof of >= 1
+    from . import lin as _lin
+    _lin.x9(ctx, rep, "Z8", [PC + "decompress_zstd", PC + "compress_zstd"])
+
+
+def _param_deps(body, opnd, depth=0, seen=None):
+    """Parameters (1-based) the operand's value is computed from, through expressions and through the arguments of calls."""
+    seen = set() if seen is None else seen
+    o = flow.origin(body, opnd)
+    out = set(o.args)
+    if depth > 6:
+        return out
+    for bb, t in o.calls:
+        if bb in seen:
+            continue
+        seen.add(bb)
+        for a in t["args"]:
+            out |= _param_deps(body, a, depth + 1, seen)
+    for bb, idx, r in o.exprs:
+        if ("e", bb, idx) in seen:
+            continue
+        seen.add(("e", bb, idx))
+        for pl in flow.places_in(r):
+            out |= _param_deps(body, {"l": pl["l"], "p": []}, depth + 1, seen)
+    return out
 
 
 def _roots(body, opnd):
